@@ -215,7 +215,13 @@ def collapse_items(items: ExpandedItems, is_linetable: bool) -> CollapsedItems:
                 prev_item.line_offset >= 127
                 or prev_item.line_offset <= (-127 if is_linetable else -128)
             )
-            and item.line_offset != 0
+            # The rest of a split line offset has the same sign and is not zero
+            and item.line_offset is not None
+            and (
+                item.line_offset > 0
+                if prev_item.line_offset > 0
+                else item.line_offset < 0
+            )
         )
         # Bytecode offset too large, so split between two
         if bytecode_offset_split or line_offset_split:
